@@ -61,6 +61,21 @@ Theorem C09_wire_wellformed_raw :
     exists d, draws (w_keys w0) d (w_keys w) /\ subseq (item_keys its) d /\ (r = Server -> d = []).
 Proof. exact wire_wellformed_gen. Qed.
 
+(* At every instant, also in the middle of a call: cut the event log anywhere — the bytes the
+   transport had accepted up to that event, followed by what out_buffer held then, are the
+   well-formed encoding of the frames queued up to then (so what the peer has received is always a
+   prefix of a well-formed frame sequence). *)
+Theorem C09_wire_wellformed_always :
+  forall (r : role) (part : bytes) (cfg : config) (x0 : ctx) (ops : list op) (w0 : world)
+         (rs : list (op_result * N)) (x : ctx) (w : world) (l1 l2 : list event),
+  ctx_new r part cfg = Some x0 -> w_log w0 = [] ->
+  Forall op_no_raw ops -> Forall op_len_u64 ops ->
+  run_ops x0 ops w0 = (rs, x, w) ->
+  w_log w = l1 ++ l2 ->
+  exists (unsent : bytes) (its1 : list witem),
+    queued l1 = map item_frame its1 /\ wf_wire r (wire l1 ++ unsent) its1.
+Proof. exact wire_wellformed_always. Qed.
+
 (* "the bytes parse": the strict reference parser accepts them, consuming everything *)
 Theorem C09_wire_parses :
   forall (r : role) (part : bytes) (cfg : config) (x0 : ctx) (ops : list op) (w0 : world)
@@ -287,13 +302,16 @@ Example C09_key_prefix_refuted :
     run_ops x0 ex_skip_ops ex_skip_world = (rs, x, w) /\
     spec_decode Client (wire (w_log w) ++ c_out (x_codec x))
     = Some [mkItem KText (Some (1, 2, 3, 4)) [104; 105]; mkItem KPong (Some (9, 10, 11, 12)) []] /\
+    fkeys (queued (w_log w)) = [(1, 2, 3, 4); (9, 10, 11, 12)] /\
+    fkeys (queued (w_log w)) <> firstn 2 (w_keys ex_skip_world) /\
     w_keys w = [].
 Proof.
   unfold ex_skip_ops, two64.
   eexists. eexists. eexists. eexists.
   split; [reflexivity|]. split; [reflexivity|].
   split; [repeat constructor|]. split; [repeat constructor|].
-  split; [vm_compute; reflexivity|]. split; vm_compute; reflexivity.
+  split; [vm_compute; reflexivity|]. split; [vm_compute; reflexivity|].
+  split; [vm_compute; reflexivity|]. split; [vm_compute; discriminate|vm_compute; reflexivity].
 Qed.
 
 (* The excluded preconditions are real: the library does not check user-supplied control frames.
@@ -347,6 +365,7 @@ Proof. split; vm_compute; reflexivity. Qed.
 
 Print Assumptions C09_wire_wellformed.
 Print Assumptions C09_wire_wellformed_raw.
+Print Assumptions C09_wire_wellformed_always.
 Print Assumptions C09_wire_parses.
 Print Assumptions C09_spec_decides.
 Print Assumptions C09_spec_unique.
